@@ -537,6 +537,8 @@ func genMain(args []string) {
 		genScale(strings.TrimPrefix(mode, "scale-"), thorough)
 	case "corpus":
 		genCorpus()
+	case "pairs":
+		genPairs()
 	default:
 		fmt.Fprintln(os.Stderr, "unknown mode", mode)
 		os.Exit(2)
